@@ -9,6 +9,7 @@ broadcast use vstd::std_specs::hash::group_hash_axioms;
 
 //@item feos-core/src/state/mod.rs enum Derivative
 //@item feos-core/src/state/mod.rs enum PartialDerivative
+use Derivative::*;
 
 // ---- stand-ins for num-dual (assumption A1: field names cross-checked by `vx scan`)
 pub struct Dual64 { pub re: f64, pub eps: f64 }
@@ -117,6 +118,74 @@ impl Cache {
     ensures
         inv(final(self).map@), kept(old(self).map@, final(self).map@),
         r == tv(PartialDerivative::Third(derivative)),
+//@end
+}
+
+// ---- C01.3 / C11.6: the dispatcher `State::get_or_compute_derivative_residual`
+// (feos-core/src/state/residual_properties.rs), body verbatim up to N5 (cache guard ->
+// `&mut Cache` parameter) and N7 (the model evaluation -> stand-in call with assumed contract A1).
+// Seeded states are abstract stand-ins for StateHD<D>; `seedK` records which derive* call
+// produced them (that is the post-condition of C01.2, proved by the Kani unit `derive_seeds`).
+#[verifier::external_body] pub struct S0 { _p: () }
+#[verifier::external_body] pub struct S1 { _p: () }
+#[verifier::external_body] pub struct S2 { _p: () }
+#[verifier::external_body] pub struct SM { _p: () }
+#[verifier::external_body] pub struct S3 { _p: () }
+pub uninterp spec fn seed_1(s: S1) -> Derivative;
+pub uninterp spec fn seed_2(s: S2) -> Derivative;
+pub uninterp spec fn seed_m1(s: SM) -> Derivative;
+pub uninterp spec fn seed_m2(s: SM) -> Derivative;
+pub uninterp spec fn seed_3(s: S3) -> Derivative;
+/// A1: what evaluating beta*A*T on a seeded state yields
+pub trait Seeded: Sized { type D; spec fn ad_ok(self, d: Self::D) -> bool; }
+impl Seeded for S0 { type D = f64; open spec fn ad_ok(self, d: f64) -> bool { d == tv(PartialDerivative::Zeroth) } }
+impl Seeded for S1 { type D = Dual64; open spec fn ad_ok(self, d: Dual64) -> bool {
+    d.re == tv(PartialDerivative::Zeroth) && d.eps == tv(PartialDerivative::First(seed_1(self))) } }
+impl Seeded for S2 { type D = Dual2_64; open spec fn ad_ok(self, d: Dual2_64) -> bool {
+    d.re == tv(PartialDerivative::Zeroth) && d.v1 == tv(PartialDerivative::First(seed_2(self)))
+    && d.v2 == tv(PartialDerivative::Second(seed_2(self))) } }
+impl Seeded for SM { type D = HyperDual64; open spec fn ad_ok(self, d: HyperDual64) -> bool {
+    d.re == tv(PartialDerivative::Zeroth) && d.eps1 == tv(PartialDerivative::First(seed_m1(self)))
+    && d.eps2 == tv(PartialDerivative::First(seed_m2(self)))
+    && d.eps1eps2 == tv(PartialDerivative::SecondMixed(seed_m1(self), seed_m2(self))) } }
+impl Seeded for S3 { type D = Dual3_64; open spec fn ad_ok(self, d: Dual3_64) -> bool {
+    d.re == tv(PartialDerivative::Zeroth) && d.v1 == tv(PartialDerivative::First(seed_3(self)))
+    && d.v2 == tv(PartialDerivative::Second(seed_3(self))) && d.v3 == tv(PartialDerivative::Third(seed_3(self))) } }
+
+#[verifier::external_body] pub struct State { _p: () }
+#[verifier::external_body]
+pub fn a_times_t<S: Seeded>(st: &State, s: &S) -> (r: S::D) ensures s.ad_ok(r) { unimplemented!() }   // A1
+impl State {
+    // assumed here, proved by the Kani unit derive_seeds (C01.2)
+    #[verifier::external_body] pub fn derive0(&self) -> (r: S0) { unimplemented!() }
+    #[verifier::external_body] pub fn derive1(&self, derivative: Derivative) -> (r: S1) ensures seed_1(r) == derivative { unimplemented!() }
+    #[verifier::external_body] pub fn derive2(&self, derivative: Derivative) -> (r: S2) ensures seed_2(r) == derivative { unimplemented!() }
+    #[verifier::external_body] pub fn derive2_mixed(&self, derivative1: Derivative, derivative2: Derivative) -> (r: SM)
+        ensures seed_m1(r) == derivative1, seed_m2(r) == derivative2 { unimplemented!() }
+    #[verifier::external_body] pub fn derive3(&self, derivative: Derivative) -> (r: S3) ensures seed_3(r) == derivative { unimplemented!() }
+
+//@fn feos-core/src/state/residual_properties.rs State::get_or_compute_derivative_residual ret=r
+    requires
+        km(), inv(old(cache).map@), old(cache).hit < u64::MAX, old(cache).miss < u64::MAX,
+    ensures
+        // from the statement: the value returned for a key is the derivative that key denotes
+        r == tv(derivative),
+        inv(final(cache).map@), kept(old(cache).map@, final(cache).map@),
+//@addparam cache: &mut Cache
+//@rewrite N5 stmt let mut cache = self.cache.lock().unwrap(); =>
+//@rewrite N7 expr self.eos.residual_helmholtz_energy(&$S) * $S.temperature => a_times_t(self, &$S)
+//@closure 0 d: f64
+    ensures d == tv(PartialDerivative::Zeroth)
+//@closure 1 d: Dual64
+    ensures d.re == tv(PartialDerivative::Zeroth), d.eps == tv(PartialDerivative::First(v))
+//@closure 2 d: Dual2_64
+    ensures d.re == tv(PartialDerivative::Zeroth), d.v1 == tv(PartialDerivative::First(v)), d.v2 == tv(PartialDerivative::Second(v))
+//@closure 3 d: HyperDual64
+    ensures d.re == tv(PartialDerivative::Zeroth), d.eps1 == tv(PartialDerivative::First(v1)),
+            d.eps2 == tv(PartialDerivative::First(v2)), d.eps1eps2 == tv(PartialDerivative::SecondMixed(v1, v2))
+//@closure 4 d: Dual3_64
+    ensures d.re == tv(PartialDerivative::Zeroth), d.v1 == tv(PartialDerivative::First(v)),
+            d.v2 == tv(PartialDerivative::Second(v)), d.v3 == tv(PartialDerivative::Third(v))
 //@end
 }
 
